@@ -13,7 +13,7 @@ def method(c):
 
 TRANSPARENT = ('branch', 'ok', 'err', 'map_err', 'map', 'as_ref', 'as_mut', 'as_deref', 'is_ok', 'is_err', 'is_some',
                'is_none', 'not', 'copied', 'cloned', 'clone', 'deref', 'unwrap_or_default', 'and_then', 'into', 'from',
-               'eq', 'ne', 'success', 'is_empty', 'len', 'code', 'borrow', 'contains')
+               'eq', 'ne', 'success', 'is_empty', 'len', 'code', 'borrow', 'contains', 'ok_or', 'ok_or_else')
 
 
 def chain_of(body, local, limit=24):
